@@ -3,4 +3,5 @@
 From Coq Require Import ExtrOcamlBasic.
 Require Import Verif.RbModel Verif.RbSpec Verif.RbOwSpec Verif.BbModel.
 Extraction "model_C11.ml" rb_open step run readback drain rfits bb_open bb_step bb_run bb_decode bb_encode
-  bb_fallback_limit bb_fallback_limit_unfixed.
+  bb_fallback_limit bb_fallback_limit_unfixed
+  rb_of_file bb_default_maxline bb_dump_file_size bb_timespec_size.
